@@ -56,10 +56,15 @@ def gen_hist(rng, mode):
             cands = [x for x in range(n) if x not in st]
         p = rng.choice(cands)
         name = None
-        if mode == 'any' and rng.random() < 0.25:
-            name = rng.choice(NAMES)
+        if rng.random() < 0.3:
+            name = rng.choice(NAMES)        # small pool: duplicates under one parent happen (-> ValueError, nothing attached)
         ops.append([p, c, name])
         parent[c] = p; kids[p].append(c); unattached.remove(c)
+    if mode == 'twice' and ops:
+        # the same document instance attached a second time, or to itself: refused since d51bb64 (ValueError, nothing changes)
+        p0, c0, _ = rng.choice(ops)
+        st = set(subtree(c0))
+        ops.append([rng.choice([x for x in range(n) if x not in st] + [c0]), c0, None])
     return {'mode': 'hist', 'docs': docs, 'ops': ops}
 
 
@@ -73,7 +78,8 @@ def many_objects(nums, rng=None):
     """objects with pairwise distinct content (marker 1000+N) and pairwise distinct media types, so that any permutation of the
     sub-documents by load()/save() is observable"""
     return [{'num': n, 'kind': 'text' if i % 2 == 0 else 'spreadsheet', 'mt': MANY_MTS[i % 12], 'settings': False,
-             'pic': bool(rng and rng.random() < 0.3), 'file': False, 'nested': False} for i, n in enumerate(nums)]
+             'pic': bool(rng and rng.random() < 0.3), 'file': False, 'nested': False, 'rich': bool(rng and rng.random() < 0.3)}
+            for i, n in enumerate(nums)]
 
 
 def gen_pkg(rng):
@@ -87,7 +93,8 @@ def gen_pkg(rng):
     nums = rng.choice([[7], [2, 5], [1, 3], [2, 1], [1, 2], [1, 2, 3], [3, 1, 2], [1, 3, 2], [10, 1], [100], [1, 100], [12, 99]])
     return {'mode': 'pkg', 'nums': nums,
             'objects': [{'num': n, 'kind': rng.choice(['text', 'spreadsheet']), 'settings': rng.random() < 0.3,
-                         'pic': rng.random() < 0.5, 'file': rng.random() < 0.3, 'nested': rng.random() < 0.25} for n in nums],
+                         'pic': rng.random() < 0.5, 'file': rng.random() < 0.3, 'nested': rng.random() < 0.25,
+                         'rich': rng.random() < 0.5} for n in nums],
             'root_first': rng.random() < 0.7, 'extras': rng.random() < 0.3}
 
 
@@ -216,6 +223,8 @@ def run_hist(chk, drv, h, oracle_only=False):
 def travel_checks(arch1, arch2):
     """sub-documents of arch1 (found by marker) must be in arch2, with everything below their folder"""
     out = []
+    chk_count = [0]
+    travel_checks.compared = chk_count
     w1, w2 = pk.folder_of_objects(arch1), pk.folder_of_objects(arch2)
     data2 = dict((n, d) for n, _, _, d in arch2.members)
     import re
@@ -242,7 +251,10 @@ def travel_checks(arch1, arch2):
                 continue
             rel = n[len(G1):]
             if rel in ('content.xml', 'styles.xml', 'settings.xml') or re.match(r'Object \d+/', rel):
-                continue
+                continue            # re-generated from the parsed document / a sub-document of its own (has its own turn)
+            chk_count[0] += 1
+            if [t for p_, t in (arch2.manifest or []) if p_ == G2 + rel] != [t for p_, t in (arch1.manifest or []) if p_ == n]:
+                out.append(('object-files-not-loaded', 'manifest entry of %r (object %d) is not carried to %r after load+save' % (n, mk, G2 + rel)))
             if data2.get(G2 + rel) != d:
                 out.append(('object-pictures-not-loaded' if rel.startswith('Pictures/') else 'object-files-not-loaded',
                             '%r of object %d is not at %r after load+save' % (n, mk, G2 + rel)))
@@ -287,7 +299,11 @@ def ref_checks(arch1, arch2, mimetypes, contiguous=True, permuted=False):
 def reload_checks(chk, drv, case, raw, arch, mimetypes, oracle_only, contiguous=True, pspec=None, nonempty=None, permuted=False):
     from odf.opendocument import load
     fails = []
-    d2 = load(io.BytesIO(raw))
+    try:
+        d2 = load(io.BytesIO(raw))
+    except Exception as e:
+        # a package that save() wrote (or a well-formed hand-made one) must load
+        return [('package-does-not-load', 'load() raised %r' % (e,))]
     m2 = c03.mirror_of_loaded(d2, pk.dedup_keys(pspec['manifest'] if pspec is not None else arch.manifest))
     raw2, _ = pk.save_real(d2)
     arch2 = pk.read_archive(raw2)
@@ -295,6 +311,7 @@ def reload_checks(chk, drv, case, raw, arch, mimetypes, oracle_only, contiguous=
     chk.count('reload_refs_checked', n)
     fails += r
     fails += travel_checks(arch, arch2)
+    chk.count('files_below_object_folders_compared', travel_checks.compared[0])
     for sig, d in pk.oracle_c03(arch2, m2, loaded=True):
         if sig in OBJECT_SIGS:
             fails.append((sig, d))
@@ -351,6 +368,24 @@ def build_pkg(ps):
         if o['file']:
             members.append((F + u'extra.bin', b'x' + bytes([o['num'] % 256])))
             man.append((F + u'extra.bin', u''))
+        if o.get('rich'):
+            # everything an office suite (or anyone) may put below an object folder: a meta.xml and a (childless) settings.xml of its
+            # own, a thumbnail, an ObjectReplacements-like file, a sub-folder of Pictures/, files named like top-level parts
+            n_ = o['num'] % 256
+            for rel, mt_, data in (
+                    (u'meta.xml', u'text/xml', pk.new_real(o['kind'], mk, False).metaxml().encode('utf-8')),
+                    (u'Thumbnails/thumbnail.png', u'image/png', bytes([n_, 1])),
+                    (u'ObjectReplacements/Object 1', u'application/x-openoffice-gdimetafile', bytes([n_, 2])),
+                    (u'Pictures/sub/deep.png', u'image/png', bytes([n_, 3])),
+                    (u'mimetype', u'', pk.KINDS[o['kind']].encode('utf-8')),
+                    (u'META-INF/manifest.xml', u'text/xml', b'<m/>'),
+                    (u'Configurations2/menubar/menubar.xml', u'', b'<c/>')):
+                members.append((F + rel, data)); man.append((F + rel, mt_))
+            man.append((F + u'Thumbnails/', u''))
+            man.append((F + u'Configurations2/', u'application/vnd.sun.xml.ui.configuration'))
+            if not o['settings']:
+                members.append((F + u'settings.xml', pk.new_real(o['kind'], mk, False).settingsxml().encode('utf-8')))
+                man.append((F + u'settings.xml', u'text/xml'))
         if o['nested']:
             G = F + u'Object 1/'
             mimetypes[2000 + o['num']] = pk.KINDS['text']
@@ -382,6 +417,17 @@ def run_pkg(chk, drv, ps, oracle_only=False):
 
 # ------------------------------------------------------------------------------------------------ cases
 FIXED = [
+    # explicit names: relative to the parent, leading "/" ignored, a duplicate is refused; the default number skips "Object 2"
+    {'mode': 'hist', 'docs': [{'kind': 'text', 'settings': False, 'pics': []}] + [{'kind': 'spreadsheet', 'settings': False, 'pics': []}] * 6,
+     'ops': [[0, 1, u'Object 2'], [0, 2, None], [0, 3, u'/MyObj'], [0, 4, u'MyObj'], [3, 5, u'//Sub obj'], [0, 6, u'/Object 2']]},
+    # the same document attached twice, and a document attached to itself: refused (was KF-C16-9, repaired in d51bb64)
+    {'mode': 'hist', 'docs': [{'kind': 'text', 'settings': False, 'pics': []}, {'kind': 'spreadsheet', 'settings': False, 'pics': []},
+                              {'kind': 'text', 'settings': False, 'pics': []}],
+     'ops': [[0, 1, None], [0, 1, None], [2, 1, None], [2, 2, None], [0, 2, None]]},
+    # bottom-up with a picture in the grandchild, then the parent gets an explicit name
+    {'mode': 'hist', 'docs': [{'kind': 'text', 'settings': False, 'pics': []}, {'kind': 'text', 'settings': False, 'pics': []},
+                              {'kind': 'text', 'settings': False, 'pics': [{'how': 'string', 'data': '0102', 'mt': u'image/png'}]}],
+     'ops': [[1, 2, None], [0, 1, u'Outer']]},
     # the three proved counter-examples of Props/C16.lean, replayed on the real code
     {'mode': 'hist', 'docs': [{'kind': 'text', 'settings': False, 'pics': []}, {'kind': 'spreadsheet', 'settings': False, 'pics': []},
                               {'kind': 'spreadsheet', 'settings': False, 'pics': []}], 'ops': [[0, 1, None], [0, 2, u'MyObj']]},
@@ -389,6 +435,10 @@ FIXED = [
                               {'kind': 'text', 'settings': False, 'pics': []}], 'ops': [[1, 2, None], [0, 1, None]]},
     {'mode': 'pkg', 'nums': [7], 'objects': [{'num': 7, 'kind': 'spreadsheet', 'settings': False, 'pic': True, 'file': False, 'nested': False}],
      'root_first': True, 'extras': False},
+    # object folders with everything below them: own meta.xml, settings.xml, Thumbnails/, ObjectReplacements, Pictures/sub/, mimetype, META-INF/manifest.xml
+    {'mode': 'pkg', 'nums': [1, 12], 'objects': [{'num': 1, 'kind': 'text', 'settings': False, 'pic': True, 'file': True, 'nested': True, 'rich': True},
+                                                  {'num': 12, 'kind': 'spreadsheet', 'settings': True, 'pic': False, 'file': False, 'nested': False, 'rich': True}],
+     'root_first': False, 'extras': True},
     # an object whose picture comes from a file with an abnormal tail after its last '.' (regression input of fix 31ca861)
     {'mode': 'hist', 'docs': [{'kind': 'text', 'settings': False, 'pics': []},
                               {'kind': 'text', 'settings': False, 'pics': [{'how': 'file', 'data': '616263', 'mt': None, 'ext': '', 'relpath': u'd.//a'}]}],
@@ -447,8 +497,10 @@ def gen_cases(chk, n):
         x = rng.random()
         if x < 0.45:
             yield gen_hist(rng, 'ordered')
-        elif x < 0.8:
+        elif x < 0.75:
             yield gen_hist(rng, 'any')
+        elif x < 0.8:
+            yield gen_hist(rng, 'twice')
         else:
             yield gen_pkg(rng)
 
@@ -460,8 +512,8 @@ def run_case(chk, drv, case, oracle_only=False):
 
 
 def run(chk, replay=None):
-    chk.rule = ('attachment histories over 2-7 documents: 45% well ordered with default names (the hypothesis of the theorem), '
-                '35% any order with 25% explicit names, each document with 0-2 pictures, references written into the parent '
+    chk.rule = ('attachment histories over 2-7 documents: 45% parents first (the hypothesis of the theorem), 30% any order, 5% with one '
+                'document attached twice or to itself (refused); 30% explicit names from a small pool (duplicates -> ValueError, checked to be atomic); each document with 0-2 pictures, references written into the parent '
                 'as draw:object; every saved package is loaded and saved again; 20% hand-made packages with object folders '
                 'numbered 7 / 2,5 / 2,1 / 100 ... with pictures, other files and nested objects, 30% of them with 10-12 objects of distinct content and media type, half of those in permuted manifest order; plus ALL histories that attach 1..3 (thorough: 4) '
                 'objects in every order under every admissible parent, nesting <= 3; non-trivial = at least one reference')
@@ -472,7 +524,7 @@ def run(chk, replay=None):
         for sig, d in fails:
             print('replay: %s: %s' % (sig, d))
         return 1 if any(sig == replay.get('signature') for sig, d in fails) else 0
-    chk.assumptions.append('attachment histories in which a document is attached twice, to itself or into its own subtree are outside the model (not generated)')
+    chk.assumptions.append('attaching the saved document below another one, or a parent into its own subtree, is outside the model (not generated)')
     chk.prove(drivers=['drv_pkg'])
     drv = chk.driver('drv_pkg')
     n = 5000 if chk.tier == 'thorough' else 700
@@ -484,7 +536,7 @@ def run(chk, replay=None):
                      sample={'mode': case['mode'], 'ops': case.get('ops'), 'nums': case.get('nums'), 'refs': refs, 'members': arch.names[:10]})
             chk.count(case['mode'])
             if case['mode'] == 'hist':
-                chk.count('hist_ordered' if py_ordered(case) else 'hist_unordered')
+                chk.count('hist_parents_first' if py_parents_first(case) else 'hist_bottom_up')
                 chk.count('ops_total', len(case['ops']))
                 chk.count('explicit_names', sum(1 for o in case['ops'] if o[2] is not None))
             for sig, d in fails:
